@@ -206,6 +206,11 @@ func resolvePhiByUses(ph *ssa.Phi) (ssa.Value, bool) {
 // that edge (one-step jump threading).  Used where a rejecting edge assigns a
 // result and the caller's test of that result sits behind a merge.
 func threadedReach(pred, start *ssa.BasicBlock) map[*ssa.BasicBlock]bool {
+	return threadedReachAvoid(pred, start, nil)
+}
+
+// threadedReachAvoid: the same, never entering a block of avoid (loop heads: within one iteration).
+func threadedReachAvoid(pred, start *ssa.BasicBlock, avoid map[*ssa.BasicBlock]bool) map[*ssa.BasicBlock]bool {
 	type st struct{ from, b *ssa.BasicBlock }
 	seen := map[st]bool{}
 	out := map[*ssa.BasicBlock]bool{}
@@ -233,6 +238,9 @@ func threadedReach(pred, start *ssa.BasicBlock) map[*ssa.BasicBlock]bool {
 			}
 		}
 		for _, s := range succs {
+			if avoid[s] {
+				continue
+			}
 			// keep the identity of the incoming edge only through blocks that hold nothing but phis and a jump
 			from := b
 			stack = append(stack, st{from, s})
